@@ -24,7 +24,7 @@ ASSUMPTIONS = ["the entry to restore is addressed by the index printed for it in
 
 MKINDS = ["non_trashinfo", "empty", "truncated", "binary", "nonutf8", "no_path", "no_date",
           "bad_date", "no_payload", "orphan", "dir_trashinfo", "dangling_trashinfo", "long_orphan",
-          "long_non_trashinfo", "tz_date", "dot_info", "dotdot_info", "many_dirs", "impossible_date"]
+          "long_non_trashinfo", "tz_date", "dot_info", "dotdot_info", "many_dirs", "impossible_date", "loop_payload", "notdir_payload"]
 CMDS = ["list", "list_size", "list_files", "restore_date", "restore_path", "restore_none", "rm", "empty", "empty_days"]
 
 
@@ -108,6 +108,14 @@ def build(case, with_m):
                 z = [b"2021-02-30T10:00:00", b"2001-13-01T00:00:00", b"2001-01-01T24:00:00",
                      b"2001-01-01T00:00:60", b"0000-00-00T00:00:00", b"2001-04-31T00:00:00"][(len(nm) + case["perm"]) % 6]
                 tw.nodes += [{"p": ip, "t": "b", "b": list(b"[Trash Info]\nPath=" + oracle.pct_encode(pv) + b"\nDeletionDate=" + z + b"\n")}, pay]
+            elif k == "loop_payload":
+                # a well-formed info whose payload is a symlink to itself: stat(2) answers ELOOP
+                tw.nodes += [{"p": ip, "t": "b", "b": list(good)},
+                             {"p": td + "/files/" + nm, "t": "l", "to": nm}]
+            elif k == "notdir_payload":
+                # ... or a symlink whose target runs through a regular file: ENOTDIR
+                tw.nodes += [{"p": ip, "t": "b", "b": list(good)},
+                             {"p": td + "/files/" + nm, "t": "l", "to": "../info/" + nm + ".trashinfo/x"}]
             elif k == "no_payload":
                 tw.nodes += [{"p": ip, "t": "b", "b": list(good)}]
             elif k == "many_dirs":
